@@ -19,7 +19,7 @@ for sid, d in load('CROSS.tsv').items():
         if final[sid].get(c) != 'DETECTED':
             final[sid][c] = v
 first = load('FIRSTRUN.tsv')
-for d in sorted(glob.glob(os.path.join(root, 'seeded', 'C*'))):
+for d in sorted([d for d in glob.glob(os.path.join(root, 'seeded', 'C*')) if os.path.isdir(d)]):
     mp = os.path.join(d, 'meta.json')
     m = json.load(open(mp))
     sid = m['id']; own = sid.split('-')[0]
@@ -31,4 +31,4 @@ for d in sorted(glob.glob(os.path.join(root, 'seeded', 'C*'))):
         m['first_run_own_property_check'] = first[sid][own]
     m['checks_run'] = "./seedmatrix.sh <id> <checks> (scratch worktree of /repo with the patch applied + scratch copy of the harness pointed at it; quick tier); results in seeded/RESULTS.tsv, seeded/CROSS.tsv, first runs in seeded/FIRSTRUN.tsv"
     json.dump(m, open(mp, 'w'), indent=1)
-print('updated', len(glob.glob(os.path.join(root, 'seeded', 'C*'))))
+print('updated', len([d for d in glob.glob(os.path.join(root, 'seeded', 'C*')) if os.path.isdir(d)]))
